@@ -19,6 +19,7 @@ import json
 import os
 import re
 import shutil
+import time
 import nv
 
 PROP = "C10"
@@ -163,18 +164,39 @@ def parse_toks(s):
 OPERAND_END = {"num", "id", "bool", "rp", "rb", "bang", "uexp"}
 
 
+FUSING_CHARS = "\u2212\u2192\u279e\u2264\u2265\u2260\u2a75"      # − → ➞ ≤ ≥ ≠ ⩵
+_FUSED_TEXT = re.compile(r"\w[%s]" % FUSING_CHARS)
+_FUSED_TOKEN = re.compile(r'\("Identifier", "[^"]*[%s][^"]*"\)' % FUSING_CHARS)
+_SPECIAL_NUMBER = re.compile(r"^(NaN|inf|0[xob].*)$")
+
+
 def candidate_signature(v):
     """narrow, syntactic pre-classification of a mismatch; F1 is confirmed against the spec afterwards"""
+    if v["kind"] == "lexer-binding":
+        # F3: a Unicode operator directly after an identifier / keyword / 0x.. literal is taken for an identifier
+        # character: the text does not lex as intended, the same text with blanks does (not "separated"), the text has a
+        # word character directly followed by one of the characters, and the tokenizer either shows an identifier
+        # containing one or fails
+        if (not v.get("separated") and _FUSED_TEXT.search(v.get("text", ""))
+                and (_FUSED_TOKEN.search(v.get("why", "")) or v.get("why", "").startswith("tokenizer error"))):
+            return "unicode-operator-fused-into-identifier"
+        return None
     toks = v["toks"]
     spec_rej = v["expected"] == ["REJECT"]
     impl_rej = v["impl"] == ["REJECT"]
     if spec_rej and not impl_rej and v["impl"][0] != "other":
         if any(toks[i][0] == "comma" and toks[i + 1][0] in ("rp", "rb") for i in range(len(toks) - 1)):
             return "trailing-comma?"
-    if impl_rej and not spec_rej and v.get("msg", "").startswith("Trailing characters"):
+    if impl_rej and not spec_rej:
+        # F2: the spec accepts, and its tree contains a product by juxtaposition whose right operand starts with a
+        # boolean, a list, NaN, inf or a 0x/0o/0b literal (a primary directly after the end of an operand can only be
+        # that); the real parser rejects
+        pieces = v.get("pieces") or [None] * len(toks)
         for i in range(1, len(toks)):
-            k, val = toks[i]
-            if (k in ("bool", "lb") or (k == "num" and val in ("NaN", "inf"))) and toks[i - 1][0] in OPERAND_END:
+            k = toks[i][0]
+            special = k in ("bool", "lb") or (k == "num" and (_SPECIAL_NUMBER.match(toks[i][1]) or
+                                                              (pieces[i] and _SPECIAL_NUMBER.match(pieces[i]))))
+            if special and toks[i - 1][0] in OPERAND_END:
                 return "juxtaposed-operand-rejected"
     return None
 
@@ -212,9 +234,24 @@ class Ctx:
         self.meta = None
         self.meta_path = os.path.join(sc, "meta.json")
         self.pending = []       # mismatches, classified at the end
+        self.pending_per_source = {}
+        self.not_listed = 0     # mismatches beyond the cap per source (counted, not kept)
         self.nontrivial = set()
         self.variants = 7
         self.outcome_samples = []
+
+
+PER_SOURCE_CAP = 3000
+
+
+def add_pending(cx, v):
+    key = (v["kind"], v["source"])
+    n = cx.pending_per_source.get(key, 0)
+    cx.pending_per_source[key] = n + 1
+    if n < PER_SOURCE_CAP:
+        cx.pending.append(v)
+    else:
+        cx.not_listed += 1
 
 
 def gen_cfg(name, text):
@@ -227,17 +264,25 @@ def gen_cfg(name, text):
 def tlc_run(module, name, cfg_text, tags, timeout=1500):
     cfg = gen_cfg(name, cfg_text)
     try:
-        return nv.tlc(module, os.path.basename(cfg), workers=8, timeout=timeout, want_tags=tags, jvm=JVM)
+        res = nv.tlc(module, os.path.basename(cfg), workers=8, timeout=timeout, want_tags=tags, jvm=JVM)
+        nv.log("tlc %s %s: %d states, %.1fs" % (module, name, res.distinct, res.wall))
+        return res
     finally:
         os.remove(cfg)
 
 
-def run_harness_cases(cx, label, tokstrings):
-    """-> list of harness results, aligned with tokstrings"""
+def run_harness_cases(cx, label, tokstrings, expected=None):
+    """-> list of harness results, aligned with tokstrings (expected: the spec's trees; the harness reports the written
+    pieces of every case the spec accepts or the parser accepts)"""
     inp = os.path.join(cx.sc, "cases_%s.ndjson" % label)
     out = os.path.join(cx.sc, "out_%s.ndjson" % label)
-    nv.write_ndjson(inp, [{"t": t} for t in tokstrings])
+    if expected is None:
+        nv.write_ndjson(inp, [{"t": t} for t in tokstrings])
+    else:
+        nv.write_ndjson(inp, [{"t": t, "a": 1} if e != ["REJECT"] else {"t": t} for t, e in zip(tokstrings, expected)])
+    t0 = time.time()
     nv.harness("nv-grammar", ["g-run", "--meta", cx.meta_path, "--cases", inp, "--seed", str(cx.seed), "--out", out])
+    nv.log("harness g-run %s: %d cases, %.1fs" % (label, len(tokstrings), time.time() - t0))
     rows = nv.read_ndjson_text(open(out).read())
     summ = rows.pop()
     assert summ.get("summary") and summ["cases"] == len(tokstrings) == len(rows)
@@ -251,17 +296,19 @@ def compare(cx, source, tokstr, expected, r):
     """one case: every distinct outcome of the variants against the spec's prediction"""
     rep = cx.rep
     for lb in r.get("lexbad", []):
-        cx.pending.append({"kind": "lexer-binding", "source": source, "tokens": tokstr, "toks": parse_toks(tokstr),
-                           "text": lb["text"], "why": lb["why"], "expected": expected, "impl": ["other", "not lexed as intended"]})
-    for o, x in zip(r["o"], r["x"]):
+        add_pending(cx, {"kind": "lexer-binding", "source": source, "tokens": tokstr, "toks": parse_toks(tokstr),
+                         "text": lb["text"], "why": lb["why"], "separated": bool(lb.get("separated")),
+                         "variants_affected": r.get("nlexbad", 1),
+                         "expected": expected, "impl": ["other", "not lexed as intended"]})
+    for j, (o, x) in enumerate(zip(r["o"], r["x"])):
         if o == "REJECT" and expected == ["REJECT"]:
             continue
         t = outcome_tree(o)
         if len(cx.outcome_samples) < 400 and o != "REJECT":
             cx.outcome_samples.append(o)
         if t != expected:
-            cx.pending.append({"kind": "parse-mismatch", "source": source, "tokens": tokstr, "toks": parse_toks(tokstr),
-                               "text": x, "expected": expected, "impl": t, "impl_sexpr": o,
+            add_pending(cx, {"kind": "parse-mismatch", "source": source, "tokens": tokstr, "toks": parse_toks(tokstr),
+                               "text": x, "pieces": r["xp"][j] if "xp" in r else None, "expected": expected, "impl": t, "impl_sexpr": o,
                                "expected_sexpr": tree_to_sexpr(expected), "msg": r.get("m", "")})
     if expected != ["REJECT"] and inner_nodes(expected) >= 2:
         cx.nontrivial.add(tokstr)
@@ -293,36 +340,38 @@ def lexer_binding(cx):
         else:
             ok = tk is not None and len(tk) == 1 and tk[0] in IMPL_KIND[k]
         if not ok:
-            cx.pending.append({"kind": "lexer-binding", "source": "spelling-table", "tokens": k, "toks": [[k, ""]], "text": s,
+            add_pending(cx, {"kind": "lexer-binding", "source": "spelling-table", "tokens": k, "toks": [[k, ""]], "text": s,
                                "why": "spelling %r of %s is lexed as %s %s" % (s, k, tk, r.get("err")),
                                "expected": ["other", k], "impl": ["other", str(tk)]})
 
 
-def g_sequences(cx, maxlen_of):
+def g_sequences(cx, maxlen, merged):
+    """merged: all alphabets in one TLC run (quick tier); else one run per alphabet"""
     rep = cx.rep
     n_alpha = None
-    a = 1
-    while n_alpha is None or a <= n_alpha:
-        maxlen = maxlen_of(a)
+    a = 0 if merged else 1
+    while True:
         res = tlc_run("MC_Grammar", "seq%d" % a,
                       "CONSTANTS MaxLen = %d\n          Alpha = %d\nSPECIFICATION Spec\n"
-                      "INVARIANTS ReadingsAgreeInv ParenNeutral EmitCase\nCHECK_DEADLOCK FALSE\n" % (maxlen, a),
+                      "INVARIANTS CheckAndEmit\nCHECK_DEADLOCK FALSE\n" % (maxlen, a),
                       ("CASE", "META", "DOC"))
+        label = "all alphabets" if merged else "alphabet %d" % a
         if res.violated:
-            rep.violation({"kind": "spec-invariant", "invariant": res.violated, "model": "MC_Grammar alphabet %d" % a,
+            rep.violation({"kind": "spec-invariant", "invariant": res.violated, "model": "MC_Grammar " + label,
                            "tlc": res.stdout[-2500:]})
             return
-        rep.tlc_stats(res, "MC_Grammar alphabet %d, length <= %d" % (a, maxlen))
+        rep.tlc_stats(res, "MC_Grammar %s, length <= %d" % (label, maxlen))
+        first = cx.meta is None
         write_meta(cx, res)
         n_alpha = len(cx.meta["alphabets"])
-        if a == 1:
+        if first:
             lexer_binding(cx)
             doc_examples(cx, res.cases.get("DOC", []))
         cases = res.cases.get("CASE", [])
-        rows = run_harness_cases(cx, "seq%d" % a, [c["t"] for c in cases])
+        rows = run_harness_cases(cx, "seq%d" % a, [c["t"] for c in cases], [c["e"] for c in cases])
         acc = 0
         for c, r in zip(cases, rows):
-            compare(cx, "G-sequences/alphabet%d" % a, c["t"], c["e"], r)
+            compare(cx, "G-sequences/alphabet%d" % c["a"], c["t"], c["e"], r)
             if c["e"] != ["REJECT"]:
                 acc += 1
         rep.add("token_sequences", len(cases))
@@ -331,6 +380,8 @@ def g_sequences(cx, maxlen_of):
             if c["e"] != ["REJECT"] and inner_nodes(c["e"]) >= 2:
                 rep.sample({"tokens": c["t"], "expected": tree_to_sexpr(c["e"])}, limit=4)
                 break
+        if merged or a >= n_alpha:
+            break
         a += 1
 
 
@@ -338,33 +389,34 @@ def doc_examples(cx, docs):
     if not docs:
         raise nv.ToolError("no DOC lines from MC_Grammar")
     toks = [d["a"] for d in docs] + [d["b"] for d in docs]
-    rows = run_harness_cases(cx, "doc", toks)
+    rows = run_harness_cases(cx, "doc", toks, [d["e"] for d in docs] * 2)
     for i, d in enumerate(docs):
         compare(cx, "book-example/" + d["name"], d["a"], d["e"], rows[i])
         compare(cx, "book-example(parenthesised)/" + d["name"], d["b"], d["e"], rows[len(docs) + i])
     cx.rep.add("book_examples", len(docs))
 
 
-def g_trees(cx, plan):
+def g_trees(cx, nodes, merged):
     rep = cx.rep
-    for fam, nodes in plan:
+    for fam in ([0] if merged else [1, 2, 3, 4]):
         res = tlc_run("MC_GrammarTrees", "tree%d" % fam,
                       "CONSTANTS MaxNodes = %d\n          Family = %d\nSPECIFICATION Spec\n"
                       "INVARIANTS RoundTripInv EmitCase\nCHECK_DEADLOCK FALSE\n" % (nodes, fam), ("CASE",))
+        label = "all families" if merged else "family %d" % fam
         if res.violated:
-            rep.violation({"kind": "spec-invariant", "invariant": res.violated, "model": "MC_GrammarTrees family %d" % fam,
+            rep.violation({"kind": "spec-invariant", "invariant": res.violated, "model": "MC_GrammarTrees " + label,
                            "tlc": res.stdout[-2500:]})
             return
-        rep.tlc_stats(res, "MC_GrammarTrees family %d, <= %d nodes" % (fam, nodes))
+        rep.tlc_stats(res, "MC_GrammarTrees %s, <= %d nodes (family 4: %d)" % (label, nodes, nodes + 1))
         cases = res.cases.get("CASE", [])
         todo = []
         for c in cases:
             for key in ("m", "f"):
                 if c[key] != "-" and not (key == "f" and c["f"] == c["m"]):
-                    todo.append((c[key], c["e"]))
-        rows = run_harness_cases(cx, "tree%d" % fam, [t for t, _ in todo])
-        for (t, e), r in zip(todo, rows):
-            compare(cx, "G-trees/family%d" % fam, t, e, r)
+                    todo.append((c[key], c["e"], c["fam"]))
+        rows = run_harness_cases(cx, "tree%d" % fam, [t for t, _, _ in todo], [e for _, e, _ in todo])
+        for (t, e, f), r in zip(todo, rows):
+            compare(cx, "G-trees/family%d" % f, t, e, r)
         rep.add("trees", len(cases))
         rep.add("tree_renderings", len(todo))
         if cases:
@@ -413,7 +465,7 @@ def g_literals(cx, plan):
                 elif tk[0] != base:
                     prob = "kind: spec %s, tokenizer %s" % (c["kind"], tk[0])
             if prob:
-                cx.pending.append({"kind": "literal-mismatch", "source": "G-literals/" + charset, "tokens": c["s"], "toks": [],
+                add_pending(cx, {"kind": "literal-mismatch", "source": "G-literals/" + charset, "tokens": c["s"], "toks": [],
                                    "text": c["s"], "why": prob, "expected": ["other", json.dumps(c)], "impl": ["other", json.dumps(r)]})
         rep.add("literal_texts", len(cases))
         rep.add("literal_texts_accepted", lits)
@@ -424,7 +476,7 @@ def g_literals(cx, plan):
         p = nv.harness("nv-grammar", ["probe"], stdin=s + "\n").stdout
         rep.add("evaluations", 1)
         if "(num %s)" % want not in p:
-            cx.pending.append({"kind": "literal-mismatch", "source": "G-literals/non-finite", "tokens": s, "toks": [], "text": s,
+            add_pending(cx, {"kind": "literal-mismatch", "source": "G-literals/non-finite", "tokens": s, "toks": [], "text": s,
                                "why": p.strip(), "expected": ["num", want], "impl": ["other", p.strip()]})
 
 
@@ -439,8 +491,9 @@ def j_traces(cx, ntraces, trees, soup, depth):
         good = []
         for r in rows:
             if r.get("lexbad"):
-                cx.pending.append({"kind": "lexer-binding", "source": "J", "tokens": " ".join(t[0] for t in r["toks"]), "toks": r["toks"],
-                                   "text": r["text"], "why": r["why"], "expected": ["other", "lexable"], "impl": ["other", "not lexed as intended"]})
+                add_pending(cx, {"kind": "lexer-binding", "source": "J", "tokens": " ".join(t[0] for t in r["toks"]), "toks": r["toks"],
+                                 "text": r["text"], "why": r["why"], "separated": bool(r.get("separated")),
+                                 "expected": ["other", "lexable"], "impl": ["other", "not lexed as intended"]})
             else:
                 good.append(r)
         nv.write_ndjson(p, [{"toks": r["toks"], "out": r["out"]} for r in good])   # what the spec judges
@@ -461,9 +514,9 @@ def j_traces(cx, ntraces, trees, soup, depth):
                 raise nv.ToolError("lenient trace validation did not consume all lines of %s" % p)
             for c in r2["res"].cases.get("CASE", []):
                 x = rows[c["line"] - 1]
-                cx.pending.append({"kind": "trace-line-rejected", "source": "J/" + os.path.basename(p), "line": c["line"],
+                add_pending(cx, {"kind": "trace-line-rejected", "source": "J/" + os.path.basename(p), "line": c["line"],
                                    "tokens": " ".join(t[0] + (":" + t[1] if t[1] else "") for t in x["toks"]), "toks": x["toks"],
-                                   "text": x["text"], "expected": c["expected"], "impl": x["out"], "msg": x.get("msg", ""),
+                                   "text": x["text"], "pieces": x.get("pieces"), "expected": c["expected"], "impl": x["out"], "msg": x.get("msg", ""),
                                    "expected_sexpr": tree_to_sexpr(c["expected"]), "impl_sexpr": tree_to_sexpr(x["out"])})
     rows = paths[0][1]
     deep = max(rows, key=lambda x: inner_nodes(x["out"]) if x["out"] != ["REJECT"] else -1)
@@ -476,7 +529,7 @@ def classify_and_report(cx):
     cands = []
     for v in cx.pending:
         v["sig"] = None
-        if v["kind"] in ("parse-mismatch", "trace-line-rejected"):
+        if v["kind"] in ("parse-mismatch", "trace-line-rejected", "lexer-binding") and v["source"] != "spelling-table":
             s = candidate_signature(v)
             if s == "trailing-comma?":
                 cands.append(v)
@@ -484,9 +537,20 @@ def classify_and_report(cx):
                 v["sig"] = s
     # confirm at most 4000 candidates against the spec (more than that is not a narrow finding any more)
     confirm_trailing_comma(cands[:4000], cx.sc)
+    summary = {}
     for v in cx.pending:
         v.pop("toks", None)
+        key = "%s | %s | %s" % (v["kind"], v.get("sig"), v["source"].split("/")[0])
+        summary[key] = summary.get(key, 0) + 1
         rep.violation(v, known_matcher)
+    if summary:
+        rep.notes["mismatch_summary"] = summary
+        for k, n in sorted(summary.items()):
+            nv.log("mismatches: %6d  %s" % (n, k))
+        nv.write_ndjson(os.path.join(cx.sc, "mismatches.ndjson"), cx.pending)
+    if cx.not_listed:
+        rep.set("mismatches_not_listed", cx.not_listed)
+        nv.log("%d further mismatches beyond %d per source were counted but not listed" % (cx.not_listed, PER_SOURCE_CAP))
 
 
 def self_tests(cx, jpaths):
@@ -544,13 +608,13 @@ def run(tier, seed):
     sc = nv.scratch("c10")
     cx = Ctx(rep, sc, seed, tier)
     if tier == "quick":
-        g_sequences(cx, lambda a: 5)
-        g_trees(cx, [(1, 5), (2, 5), (3, 5), (4, 6)])
+        g_sequences(cx, 5, merged=True)
+        g_trees(cx, 5, merged=True)
         g_literals(cx, [("dec", 5), ("based", 6)])
         jpaths = j_traces(cx, 2, 1200, 800, 6)
     else:
-        g_sequences(cx, lambda a: 6)
-        g_trees(cx, [(1, 6), (2, 6), (3, 6), (4, 7)])
+        g_sequences(cx, 6, merged=False)
+        g_trees(cx, 6, merged=False)
         g_literals(cx, [("dec", 6), ("based", 7)])
         jpaths = j_traces(cx, 8, 3000, 2000, 6)
     if not rep.violations:
